@@ -47,6 +47,9 @@ def run(index, rep, db=None):
     rep.guard(consumption_sum, db, rep)
     rep.guard(caps, db, rep)
     rep.guard(animal, db, rep)
+    # the feasible sets as each round states them: charge met exactly (human rounds); demand ceilings and never-rising totals (feed round)
+    from .c01 import feed_biofuel
+    rep.guard(feed_biofuel, db, rep, "C02")
     return db
 
 
